@@ -99,6 +99,52 @@ def realise_table(pa, inst, scale):
     return c, d
 
 
+def realise_batch(pa, insts, scale, group=40):
+    """realise_table for many instances with FEW dissimilarity objects: the instances of a group (same delta_empty) share one
+    precomputed matrix, every unit of every instance having its own category.  Each dissimilarity object costs a JIT
+    compilation; ten thousand of them in one process exhaust numba's code memory (the interpreter then dies on SIGSEGV)."""
+    from pyannote.core import Segment
+    from sortedcontainers import SortedSet
+    out = [None] * len(insts)
+    by_de = {}
+    for k, inst in enumerate(insts):
+        by_de.setdefault(inst["de"], []).append(k)
+    for de, idxs in by_de.items():
+        for g in range(0, len(idxs), group):
+            part = idxs[g:g + group]
+            names = {}
+            for k in part:
+                inst = insts[k]
+                for a in range(inst["n"]):
+                    for i in range(inst["sizes"][a]):
+                        names[(k, a, i)] = f"k{k:05d}c{a + 1}_{i:03d}"
+            cats = SortedSet(names.values())
+            if not cats:
+                cats = SortedSet(["none"])
+            idx = {name: j for j, name in enumerate(cats)}
+            m = np.ones((len(cats), len(cats)), dtype=np.float32)
+            np.fill_diagonal(m, 0.0)
+            for k in part:
+                inst = insts[k]
+                for a in range(inst["n"]):
+                    for b in range(a + 1, inst["n"]):
+                        for i in range(inst["sizes"][a]):
+                            for j in range(inst["sizes"][b]):
+                                v = inst["D"][a][b][i][j] / de
+                                x, y = idx[names[(k, a, i)]], idx[names[(k, b, j)]]
+                                m[x, y] = m[y, x] = v
+            d = pa.PrecomputedCategoricalDissimilarity(cats, m, delta_empty=de / scale)
+            for k in part:
+                inst = insts[k]
+                c = pa.Continuum()
+                for a in range(inst["n"]):
+                    c.add_annotator(f"ann{a + 1}")
+                    for i in range(inst["sizes"][a]):
+                        c.add(f"ann{a + 1}", Segment(10.0 * i, 10.0 * i + 1.0), names[(k, a, i)])
+                out[k] = (c, d)
+    return out
+
+
 def observe_table(pa, c, d, scale, cap_factor=None):
     """The pairwise table as the compiled form computes it (the value used inside alignment computations)."""
     anns = list(c.annotators)
